@@ -375,3 +375,132 @@ mod tests {
         assert!(matches!(next, ClientAuthenticationProcess::Ok));
     }
 }
+
+/// Verification hooks (feature `verif`): thin, add-only wrappers that let an external
+/// harness drive the two handshake state machines directly (any state, any message) and
+/// read the resulting state, including the challenge `rand` drew.
+#[cfg(feature = "verif")]
+#[allow(missing_docs, missing_debug_implementations, unreachable_pub)]
+pub mod verif_hooks {
+    use super::*;
+
+    fn hex(b: &[u8]) -> String {
+        b.iter().map(|x| format!("{x:02x}")).collect()
+    }
+
+    /// `hash::challenge_digest`
+    pub fn digest(cookie: &str, challenge: u32) -> Vec<u8> {
+        crate::hash::challenge_digest(cookie, challenge).to_vec()
+    }
+
+    fn word(s: &str) -> String {
+        if s.is_empty() {
+            "-".to_string()
+        } else {
+            s.replace(' ', "_")
+        }
+    }
+
+    pub struct ServerFsm(ServerAuthenticationProcess);
+
+    impl ServerFsm {
+        pub fn init() -> Self {
+            Self(ServerAuthenticationProcess::init())
+        }
+        pub fn have_peer_name(name: proto::NameMessage) -> Self {
+            Self(ServerAuthenticationProcess::HavePeerName(name))
+        }
+        pub fn waiting_on_client_status() -> Self {
+            Self(ServerAuthenticationProcess::WaitingOnClientStatus)
+        }
+        pub fn waiting_reply(challenge: u32, digest: Digest) -> Self {
+            Self(ServerAuthenticationProcess::WaitingOnClientChallengeReply(challenge, digest))
+        }
+        pub fn ok(digest: Digest) -> Self {
+            Self(ServerAuthenticationProcess::Ok(digest))
+        }
+        pub fn close() -> Self {
+            Self(ServerAuthenticationProcess::Close)
+        }
+        pub fn start_challenge(&self, cookie: &str) -> Self {
+            Self(self.0.start_challenge(cookie))
+        }
+        pub fn next(&self, msg: proto::AuthenticationMessage, cookie: &str) -> Self {
+            Self(self.0.next(msg, cookie))
+        }
+        pub fn describe(&self) -> String {
+            match &self.0 {
+                ServerAuthenticationProcess::WaitingOnPeerName => "waitingName".to_string(),
+                ServerAuthenticationProcess::HavePeerName(n) => format!(
+                    "havePeerName {} {} {}",
+                    word(&n.name),
+                    word(&n.connection_string),
+                    n.connection_id
+                ),
+                ServerAuthenticationProcess::WaitingOnClientStatus => {
+                    "waitingClientStatus".to_string()
+                }
+                ServerAuthenticationProcess::WaitingOnClientChallengeReply(c, d) => {
+                    format!("waitingReply {c} {}", hex(d))
+                }
+                ServerAuthenticationProcess::Ok(d) => format!("ok {}", hex(d)),
+                ServerAuthenticationProcess::Close => "close".to_string(),
+            }
+        }
+    }
+
+    pub struct ClientFsm(ClientAuthenticationProcess);
+
+    impl ClientFsm {
+        pub fn init() -> Self {
+            Self(ClientAuthenticationProcess::init())
+        }
+        pub fn waiting_challenge(status: i32) -> Self {
+            Self(ClientAuthenticationProcess::WaitingForServerChallenge(
+                proto::ServerStatus { status },
+            ))
+        }
+        pub fn waiting_ack(
+            server_challenge: proto::Challenge,
+            reply: Digest,
+            ours: u32,
+            expected: Digest,
+        ) -> Self {
+            Self(ClientAuthenticationProcess::WaitingForServerChallengeAck(
+                server_challenge,
+                reply,
+                ours,
+                expected,
+            ))
+        }
+        pub fn ok() -> Self {
+            Self(ClientAuthenticationProcess::Ok)
+        }
+        pub fn close() -> Self {
+            Self(ClientAuthenticationProcess::Close)
+        }
+        pub fn next(&self, msg: proto::AuthenticationMessage, cookie: &str) -> Self {
+            Self(self.0.next(msg, cookie))
+        }
+        pub fn describe(&self) -> String {
+            match &self.0 {
+                ClientAuthenticationProcess::WaitingForServerStatus => "waitingStatus".to_string(),
+                ClientAuthenticationProcess::WaitingForServerChallenge(s) => {
+                    format!("waitingChallenge {}", s.status)
+                }
+                ClientAuthenticationProcess::WaitingForServerChallengeAck(c, reply, ours, exp) => {
+                    format!(
+                        "waitingAck {} {} {} {} {ours} {}",
+                        word(&c.name),
+                        word(&c.connection_string),
+                        c.challenge,
+                        hex(reply),
+                        hex(exp)
+                    )
+                }
+                ClientAuthenticationProcess::Ok => "ok".to_string(),
+                ClientAuthenticationProcess::Close => "close".to_string(),
+            }
+        }
+    }
+}
